@@ -773,6 +773,10 @@ class Harness:
 
 
 def main():
+    # a check may have been started as a background job of a non-interactive shell: SIGINT is
+    # then inherited as "ignored" and Python installs no KeyboardInterrupt handler - the ^C of
+    # a scenario would never arrive
+    signal.signal(signal.SIGINT, signal.default_int_handler)
     scn = json.load(sys.stdin)
     if scn.get("switchinterval"):
         sys.setswitchinterval(scn["switchinterval"])
